@@ -322,11 +322,17 @@ inductive FsRes where
   | inside
   deriving DecidableEq, Repr
 
+/-- What a dependency's `from_str` does with a string: `Ok`, `Err`, or it panics itself
+    (inetnum 0.1.1 `Asn::from_str` slices `s[..2]` and panics when byte 2 is inside a character). -/
+inductive PRes where
+  | ok | err | panic
+  deriving DecidableEq, Repr
+
 /-- Assumed behaviour of code outside `/repo`. -/
 structure Deps where
   pfx : Bytes → PfxRes          -- `inetnum::addr::Prefix::from_str`
-  asn : Bytes → Bool            -- `inetnum::asn::Asn::from_str(..).is_ok()`
-  community : Bytes → Bool      -- `HumanReadableCommunity::from_str(..).is_ok()`
+  asn : Bytes → PRes            -- `inetnum::asn::Asn::from_str`
+  community : Bytes → PRes      -- `routecore … HumanReadableCommunity::from_str`
   fs : Bytes → FsRes            -- the file system as seen by `Processor::queue`
 
 inductive Method where
@@ -350,6 +356,7 @@ inductive Site where
   | aeToStr        -- http.rs:261  `v.to_str().unwrap()`
   | graphSplitAt   -- manager.rs:1463 `restant.split_at("/traces/".len())`
   | graphEmpty     -- manager.rs:403  `vg.do_it(..)` on a graph without nodes (layout-rs asserts)
+  | depFromStr     -- rib_unit/http/request.rs `extract_filter_kind`: the dependency's `from_str` panics
   deriving DecidableEq, Repr
 
 inductive Outcome where
@@ -383,10 +390,11 @@ structure Variant where
   aeUnwrap : Bool       -- `to_str().unwrap()` vs `to_str().map(..).unwrap_or(false)`
   graphSplit : Bool     -- `split_at(8)` after `contains` vs `strip_prefix("/traces/")`
   graphEmpty : Bool     -- laying out a graph without nodes vs skipping the layout
+  depPanic : Bool       -- filter values handed to `Asn::from_str` unchecked vs rejected when not ASCII
   deriving DecidableEq, Repr
 
-def asWritten : Variant := ⟨true, true, true⟩
-def repaired : Variant := ⟨false, false, false⟩
+def asWritten : Variant := ⟨true, true, true, true⟩
+def repaired : Variant := ⟨false, false, false, false⟩
 
 def r200 : Resp := ⟨200, false, true⟩
 def r400 : Resp := ⟨400, false, true⟩
@@ -431,14 +439,21 @@ def routerListProc (base : Bytes) (dec : Bytes) (ps : List Param) : PR :=
 def allPiecesIn (allowed : List Bytes) (value : Bytes) : Bool :=
   (splitOn 44 value).all fun p => allowed.contains p
 
-/-- `extract_filter_kind(..).is_ok()` -/
-def filterKindOk (d : Deps) : Matched → Bool
-  | .exact _ => false
+/-- the dependency calls `extract_filter_kind` makes for one filter parameter, in order -/
+def filterSeq (d : Deps) : Matched → List PRes
+  | .exact _ => [.err]
   | .family f v =>
-    if f = sAsPath then (splitOn 44 v).all d.asn
-    else if f = sPeerAs then d.asn v
-    else if f = sCommunity then d.community v
-    else false
+    if f = sAsPath then (splitOn 44 v).map d.asn
+    else if f = sPeerAs then [d.asn v]
+    else if f = sCommunity then [d.community v]
+    else [.err]
+
+/-- the first call that does not return `Ok` decides (`?` / unwinding) -/
+def firstBad : List PRes → PRes
+  | [] => .ok
+  | .ok :: l => firstBad l
+  | .err :: _ => .err
+  | .panic :: _ => .panic
 
 /-- Parameters that no `get_param`/`get_all_params` call of `handle_prefix_query` marks as used. -/
 def unusedParams (ps : List Param) : List Nat :=
@@ -469,8 +484,8 @@ def detailsOk (ps : List Param) : Bool :=
   | none => true
 
 /-- `parse_filter_params`, the `select` / `discard` loops -/
-def filtersOk (d : Deps) (needle : Bytes) (ps : List Param) : Bool :=
-  (getAllParams needle ps).all (filterKindOk d)
+def filtersRes (d : Deps) (needle : Bytes) (ps : List Param) : PRes :=
+  firstBad ((getAllParams needle ps).flatMap (filterSeq d))
 
 /-- `parse_filter_params`, `filter_op` -/
 def filterOpOk (ps : List Param) : Bool :=
@@ -484,21 +499,31 @@ def formatOk (ps : List Param) : Bool :=
   | some m => m.value = sDump
   | none => true
 
+/-- what a filter loop's outcome means for the request: `none` = go on -/
+def filterStop (v : Variant) : PRes → Option PR
+  | .ok => none
+  | .err => some (.resp r400)
+  | .panic => some (if v.depPanic then .panic .depFromStr else .resp r400)
+
 /-- `handle_prefix_query`, in the order of the code (each `?` is an early 400). -/
-def ribPrefixQuery (d : Deps) (v4min v6min : Nat) (suffix : Bytes) (ps : List Param) : Resp :=
+def ribPrefixQuery (v : Variant) (d : Deps) (v4min v6min : Nat) (suffix : Bytes) (ps : List Param) : PR :=
   match d.pfx suffix with
-  | .err => r400
+  | .err => .resp r400
   | .ok v4 len =>
-    if !includeOk ps then r400 else
-    if wantsMore ps && len < (if v4 then v4min else v6min) then r400 else
-    if !detailsOk ps then r400 else
-    if !filtersOk d sSelect ps then r400 else
-    if !filtersOk d sDiscard ps then r400 else
-    if !filterOpOk ps then r400 else
+    if !includeOk ps then .resp r400 else
+    if wantsMore ps && len < (if v4 then v4min else v6min) then .resp r400 else
+    if !detailsOk ps then .resp r400 else
+    match filterStop v (filtersRes d sSelect ps) with
+    | some r => r
+    | none =>
+    match filterStop v (filtersRes d sDiscard ps) with
+    | some r => r
+    | none =>
+    if !filterOpOk ps then .resp r400 else
     -- parse_sort_params never fails; `format` is looked up here (marked used) but judged last
-    if !(unusedParams ps).isEmpty then r400 else
+    if !(unusedParams ps).isEmpty then .resp r400 else
     -- the store query itself (a physical RIB with a store): a result
-    if formatOk ps then r200 else r400
+    if formatOk ps then .resp r200 else .resp r400
 
 /-- `handle_ingress_id_query` on a physical RIB -/
 def ribIngressQuery (suffix : Bytes) : Resp :=
@@ -507,12 +532,12 @@ def ribIngressQuery (suffix : Bytes) : Resp :=
   | some _ => r200
 
 /-- `PrefixesApi::process_request` -/
-def ribProc (d : Deps) (base : Bytes) (v4min v6min : Nat) (raw dec : Bytes) (ps : List Param) : PR :=
+def ribProc (v : Variant) (d : Deps) (base : Bytes) (v4min v6min : Nat) (raw dec : Bytes) (ps : List Param) : PR :=
   match stripPrefix dec base with
   | none => .none
   | some suffix =>
     if countByte 47 raw + 1 = 3 then .resp (ribIngressQuery suffix)
-    else .resp (ribPrefixQuery d v4min v6min suffix ps)
+    else ribPrefixQuery v d v4min v6min suffix ps
 
 /-- `Processor::queue` after the `update_path` check: is the `file` parameter usable? -/
 def mrtFileOk (d : Deps) (ps : List Param) : Bool :=
@@ -540,7 +565,7 @@ def Proc.run (v : Variant) (d : Deps) (raw dec : Bytes) (ps : List Param) : Proc
   | .tracer => tracerProc dec
   | .graph empty => graphProc v empty dec
   | .routerList base => routerListProc base dec ps
-  | .rib base v4 v6 => ribProc d base v4 v6 raw dec ps
+  | .rib base v4 v6 => ribProc v d base v4 v6 raw dec ps
   | .mrt base hasDir => mrtProc d base hasDir dec ps
   | .dead => .none
 
